@@ -419,24 +419,15 @@ def gen_tree(rng, depth=0):
 
 
 def lossy_features(j):
-    """names of the attributes of a canonical op that reverse() is known not to carry"""
+    """names of the attributes of a canonical op that reverse() is known not to carry (open finding F13)"""
     k = j.get("k")
     out = []
-    if k == "alterColumn" and j["a"]["mName"] is not None:
-        out.append("modify_name")
     if k in ("createTable", "createIndex") and j["ine"] is not None:
         out.append("if_not_exists")
     if k in ("dropTable", "dropIndex") and j["ie"] is not None:
         out.append("if_exists")
     if k in ("addColumn", "dropColumn") and j["kw"]:
         out.append("column_kw")
-    if k == "addConstraint":
-        c = j["c"]
-        if c["kind"] in ("unique", "foreignkey"):
-            if c["deferrable"] is False or c["initially"] == "":
-                out.append("falsy_deferrable")
-        elif c["deferrable"] is not None or c["initially"] is not None:
-            out.append("check_deferrable")
     if k == "modifyTable":
         for o in j["ops"]:
             out.extend(lossy_features(o))
@@ -444,26 +435,13 @@ def lossy_features(j):
 
 
 def strip_lossy(op):
-    """a copy of the op without the attributes listed by lossy_features (None if not applicable)"""
+    """a copy of the op without the attributes listed by lossy_features"""
     import copy
     o = copy.copy(op)
-    if isinstance(o, ops.AlterColumnOp):
-        o.modify_name = None
     if isinstance(o, (ops.CreateTableOp, ops.CreateIndexOp)):
         o.if_not_exists = None
     if isinstance(o, (ops.DropTableOp, ops.DropIndexOp)):
         o.if_exists = None
     if isinstance(o, (ops.AddColumnOp, ops.DropColumnOp)):
         o.kw = {}
-    if isinstance(o, ops.AddConstraintOp) and hasattr(o, "kw"):
-        kw = dict(o.kw)
-        if isinstance(o, (ops.CreateUniqueConstraintOp, ops.CreateForeignKeyOp)):
-            if kw.get("deferrable") is False:
-                kw.pop("deferrable")
-            if kw.get("initially") == "":
-                kw.pop("initially")
-        else:
-            kw.pop("deferrable", None)
-            kw.pop("initially", None)
-        o.kw = kw
     return o
